@@ -115,10 +115,15 @@ def write_coqproject():
 
 
 def coq_make(targets=None, timeout=3000):
-    """Full .vo build (never -vos) of the given targets (relative .vo paths) or of everything."""
-    write_coqproject()
-    t = " ".join(targets) if targets else ""
-    rc, out = sh("timeout %d make -j%d %s" % (timeout, NCPU, t), cwd=COQ, timeout=timeout + 60)
+    """Full .vo build (never -vos) of the given targets (relative .vo paths) or of everything.
+    Serialised by a file lock so that concurrent checks do not race on the Makefile / .vo files."""
+    import fcntl
+    os.makedirs(BUILD, exist_ok=True)
+    with open(os.path.join(BUILD, "coq.lock"), "w") as lk:
+        fcntl.flock(lk, fcntl.LOCK_EX)
+        write_coqproject()
+        t = " ".join(targets) if targets else ""
+        rc, out = sh("timeout %d make -j%d %s" % (timeout, NCPU, t), cwd=COQ, timeout=timeout + 60)
     return rc == 0, out
 
 
@@ -323,6 +328,7 @@ def coq_eval(name, requires, exprs, shard=250):
 # ----------------------------------------------------------------------------- decision helpers
 
 def load_known(prop):
+    """known-findings.json (committed, never written at run time)."""
     if not os.path.exists(KNOWN_FILE):
         return []
     data = json.load(open(KNOWN_FILE))
